@@ -86,16 +86,22 @@ func factsC09() {
 	sites = append(sites, "auth-secret: "+one(c09CallArgs(back, methodDecl(back, "updater", "buildBackendAuthHTTP"), "c.cache.GetPasswdSecretContent", 0, 2), "auth-secret"))
 	sites = append(sites, "auth-url: "+one(c09CallArgs(back, methodDecl(back, "updater", "setAuthExternal"), "c.haproxy.Backends().FindBackend", 0, 3), "auth-url"))
 	addStrList("c09Sites", sites, "arguments (defaultNamespace, name) each reference site hands to the cache / FindBackend")
-	// where namespace, name of the secure-* sites come from
+	// where the default namespace of the secure-* sites comes from
 	var nn []string
 	ast.Inspect(prot, func(n ast.Node) bool {
-		if a, ok := n.(*ast.AssignStmt); ok && len(a.Lhs) == 3 && len(a.Rhs) == 1 && a.Tok == token.DEFINE {
-			nn = append(nn, c08Src(back, a))
+		if a, ok := n.(*ast.AssignStmt); ok && len(a.Rhs) == 1 && a.Tok == token.DEFINE {
+			if c, ok := a.Rhs[0].(*ast.CallExpr); ok {
+				if f := c08Src(back, c.Fun); strings.HasPrefix(f, "crt.") || strings.HasPrefix(f, "ca.") {
+					nn = append(nn, c08Src(back, a))
+				}
+			}
 		}
 		return true
 	})
-	addStrList("c09SecureNamespacedName", nn, "backend.go buildBackendProtocol: where (namespace, name) of the secure-* keys come from")
-	// auth-secret: Find before the cache call?
+	addStrList("c09SecureDefaultNamespace", nn, "backend.go buildBackendProtocol: where the default namespace of the secure-* keys comes from")
+	mp := "pkg/converters/ingress/annotations/mapper.go"
+	addStrList("c09DefaultNamespace", c08Skeleton(mp, methodDecl(mp, "ConfigValue", "defaultNamespace")), "annotations/mapper.go ConfigValue.defaultNamespace: skeleton")
+	// auth-secret: the cache is asked before Userlists().Find
 	ah := methodDecl(back, "updater", "buildBackendAuthHTTP")
 	findPos, getPos := token.NoPos, token.NoPos
 	ast.Inspect(ah, func(n ast.Node) bool {
@@ -109,8 +115,31 @@ func factsC09() {
 		}
 		return true
 	})
-	addBool("c09UserlistFindBeforeCache", findPos != token.NoPos && getPos != token.NoPos && findPos < getPos,
-		"backend.go buildBackendAuthHTTP: Userlists().Find is consulted before GetPasswdSecretContent")
+	addBool("c09CacheBeforeUserlistFind", findPos != token.NoPos && getPos != token.NoPos && getPos < findPos,
+		"backend.go buildBackendAuthHTTP: GetPasswdSecretContent is called before Userlists().Find")
+	// auth-url: the permission check of setAuthExternal and its position before FindBackend
+	ae := methodDecl(back, "updater", "setAuthExternal")
+	var chk []string
+	chkPos, fbPos := token.NoPos, token.NoPos
+	ast.Inspect(ae, func(n ast.Node) bool {
+		switch v := n.(type) {
+		case *ast.IfStmt:
+			if c := c08Src(back, v.Cond); strings.Contains(c, "CrossNamespaceServices") {
+				chk = append(chk, c)
+				chkPos = v.Pos()
+			}
+		case *ast.CallExpr:
+			if c08Src(back, v.Fun) == "c.haproxy.Backends().FindBackend" {
+				fbPos = v.Pos()
+			}
+		}
+		return true
+	})
+	addStrList("c09AuthURLCheck", chk, "backend.go setAuthExternal: the cross-namespace check")
+	addBool("c09AuthURLCheckBeforeFind", chkPos != token.NoPos && fbPos != token.NoPos && chkPos < fbPos, "backend.go setAuthExternal: the check precedes FindBackend")
+	// cache.go GetTLSSecretPath: a certificate from a file is parsed
+	addInt("c09ReadCertificateFileCalls", itoa(len(c09CallArgs(cache, methodDecl(cache, "c", "GetTLSSecretPath"), "c.sslCerts.readCertificateFile", 0, 1))),
+		"services/cache.go GetTLSSecretPath: calls of sslCerts.readCertificateFile (file:// branch)")
 
 	// converters.go Sync: the gateway converter runs before the ingress converter
 	cv := "pkg/converters/converters.go"
@@ -126,14 +155,23 @@ func factsC09() {
 		return true
 	})
 	addStrList("c09SyncOrder", order, "converters.go Sync: order of the converter Sync calls")
-	// ingress.go: UpdateGlobalConfig is called by syncFull only
-	var callers []string
-	for _, d := range load(ing).f.Decls {
-		if fd, ok := d.(*ast.FuncDecl); ok && fd.Body != nil {
-			if len(c09CallArgs(ing, fd, "c.updater.UpdateGlobalConfig", 0, 0)) > 0 {
-				callers = append(callers, fd.Name.Name)
+	// converters.go Sync: the ingress converter is created before the first converter runs, and
+	// ingress.go NewIngressConverter applies the dynamic config
+	newPos, firstSync := token.NoPos, token.NoPos
+	ast.Inspect(sync, func(n ast.Node) bool {
+		if c, ok := n.(*ast.CallExpr); ok {
+			switch f := c08Src(cv, c.Fun); {
+			case f == "ingress.NewIngressConverter":
+				newPos = c.Pos()
+			case strings.HasSuffix(f, "Converter.Sync") && firstSync == token.NoPos:
+				firstSync = c.Pos()
 			}
 		}
-	}
-	addStrList("c09UpdateGlobalConfigCallers", callers, "ingress.go: functions that call updater.UpdateGlobalConfig")
+		return true
+	})
+	addBool("c09IngressConverterCreatedFirst", newPos != token.NoPos && firstSync != token.NoPos && newPos < firstSync,
+		"converters.go Sync: ingress.NewIngressConverter is called before any converter's Sync")
+	addStrList("c09NewConverterDynamic", c09CallArgs(ing, funcDecl(ing, "NewIngressConverter"), "annotations.UpdateDynamicConfig", 0, 2),
+		"ingress.go NewIngressConverter: arguments of annotations.UpdateDynamicConfig")
+	addStrList("c09UpdateDynamicConfig", c08Skeleton(upd, funcDecl(upd, "UpdateDynamicConfig")), "annotations/updater.go UpdateDynamicConfig: skeleton")
 }
